@@ -21,7 +21,6 @@
 package dig
 
 import (
-	"errors"
 	"fmt"
 	"reflect"
 	"strconv"
@@ -292,7 +291,7 @@ func (ps paramSingle) Build(c containerStore) (reflect.Value, error) {
 
 		// If we're missing dependencies but the parameter itself is optional,
 		// we can just move on.
-		if errors.As(err, new(errMissingDependencies)) && ps.Optional {
+		if ps.Optional && isMissingDependencies(err) {
 			return reflect.Zero(ps.Type), nil
 		}
 
